@@ -84,7 +84,8 @@ class Sys(e1.TimedSys):
         # two real instances: their offers share the multicast queue, and stopping both in one
         # iteration makes stop() work on the same open collector twice
         self.insts = []
-        for i in (1, 2):
+        self.iids = (1,) if cfg.get("one_instance") else (1, 2)
+        for i in self.iids:
             inst = sd.ServiceInstance(cfg_.Service(self.realsid, i, 1, 0), sd.ServerServiceListener(),
                                       self.prot.announcer, self.prot.timings)
             self.insts.append(inst)
@@ -137,22 +138,22 @@ class Sys(e1.TimedSys):
             # an Offer whose start has not reached the wire yet may never have been queued (the task is
             # cancelled before its first step when stop follows start within two iterations): optional
             m.real_owed = [(d, i, z, True) if not z else (d, i, z, o) for d, i, z, o in m.real_owed]
-            m.real_owed += [("M", 1, True, False), ("M", 2, True, False)]
+            m.real_owed += [("M", i, True, False) for i in self.iids]
             m.ready = False
             ann.stop()
         elif act[0] == "ann-start":
             m.started = True
             # initial delay 0, no repetitions, non-cyclic: exactly one Offer per instance per start
-            m.real_owed += [("M", 1, False, False), ("M", 2, False, False)]
+            m.real_owed += [("M", i, False, False) for i in self.iids]
             m.ready = "starting"
             ann.start()
         elif act[0] == "find":
             # a unicast FindService from the peer: every ready instance queues an Offer for the peer
             self.find_session += 1
             if m.ready is True:
-                m.real_owed += [(act[1], 1, False, False), (act[1], 2, False, False)]
+                m.real_owed += [(act[1], i, False, False) for i in self.iids]
             elif m.ready == "starting":
-                m.real_owed += [(act[1], 1, False, True), (act[1], 2, False, True)]  # not specified in this window
+                m.real_owed += [(act[1], i, False, True) for i in self.iids]  # not specified in this window
             data = refcodec.sd_message(self.find_session, [("find", self.realsid, 0xFFFF, 0xFF, 3, 0xFFFFFFFF, (), ())])
             self.prot.datagram_received(data, DEST[act[1]], False)
 
@@ -252,6 +253,9 @@ def configs(ctx):
                                          dests=("M", "P1"), deviations=0, fine=0), ctx.pick(3, 4)))
     out.append(("timeout-c-lifecycle", dict(sids=s, advs=advs, timeout=C, bursts=(), dests=("M", "P1"), lifecycle=True,
                                             deviations=1, fine=1), ctx.pick(4, 5)))
+    # a single real instance: its StopOffer and its next Offer are neighbours in the multicast queue
+    out.append(("timeout-c-lifecycle-one-instance", dict(sids=s, advs=(None, "half", "next"), timeout=C, bursts=(), dests=("M",),
+                                                         lifecycle=True, one_instance=True, deviations=1, fine=0), ctx.pick(4, 5)))
     out.append(("timeout-c-aliased-destinations", dict(sids=s, advs=(None, "half", "next"), timeout=C, bursts=(),
                                                        dests=("P3", "P4", "P1", "P5"), deviations=0, fine=0), ctx.pick(3, 4)))
     out.append(("timeout-0", dict(sids=s, advs=(None,), timeout=0, bursts=(17,), dests=("M", "P1", "P2"), lifecycle=True,
